@@ -234,13 +234,24 @@ func (versionStream) Generate(rng *rand.Rand, tier string, emit func(Case)) {
 		for k := rng.Intn(4); k > 0; k-- {
 			placeFeature(s, rng.Intn(nFeatures), rng.Intn(nDev+1)-1)
 		}
-		if rng.Intn(10) == 0 {
+		if rng.Intn(6) == 0 {
+			// null entries before, after and between the real ones, in a device or at Spec level: whatever sits behind a
+			// null entry still counts
 			e := &s.Devices[rng.Intn(nDev)].ContainerEdits
-			switch rng.Intn(2) {
+			if rng.Intn(3) == 0 {
+				e = &s.ContainerEdits
+			}
+			switch rng.Intn(5) {
 			case 0:
 				e.Mounts = append(e.Mounts, nil)
 			case 1:
 				e.DeviceNodes = append(e.DeviceNodes, nil)
+			case 2:
+				e.Mounts = append([]*specs.Mount{nil}, e.Mounts...)
+			case 3:
+				e.DeviceNodes = append([]*specs.DeviceNode{nil}, e.DeviceNodes...)
+			case 4:
+				e.Mounts = append([]*specs.Mount{nil}, append(e.Mounts, nil, &specs.Mount{HostPath: "/h2", ContainerPath: "/c2", Type: "tmpfs"})...)
 			}
 		}
 		emitSpec(s, rng.Intn(8) == 0)
